@@ -8,7 +8,6 @@ package gosym
 
 import (
 	"fmt"
-	"os"
 	"go/types"
 
 	"golang.org/x/tools/go/ssa"
@@ -119,7 +118,10 @@ func (m *machine) schedPoint(what string) {
 			selfEnabled = true
 		}
 	}
-	if selfEnabled && m.cfg.Preempt >= 0 && m.preempts >= m.cfg.Preempt {
+	// voluntary yields (zz.Yield, time.Sleep, runtime.Gosched) are not preemptions:
+	// switching there is always explored and does not count against the bound
+	voluntary := what == "yield" || what == "sleep" || what == "gosched"
+	if selfEnabled && !voluntary && m.cfg.Preempt >= 0 && m.preempts >= m.cfg.Preempt {
 		return
 	}
 	if len(cands) == 1 && selfEnabled {
@@ -140,7 +142,7 @@ func (m *machine) schedPoint(what string) {
 	if next == self {
 		return
 	}
-	if selfEnabled {
+	if selfEnabled && !voluntary {
 		m.preempts++
 	}
 	m.switchTo(next)
@@ -184,7 +186,9 @@ func (m *machine) block(what string, ready func() bool) {
 	self.blocked = nil
 }
 
-func (m *machine) deadlock(what string) {
+// deadlockOutcome classifies "no thread can run": a bound cut when a thread
+// waits for a timer beyond the delivery bound, otherwise a deadlock violation.
+func (m *machine) deadlockOutcome(what string) pathEnd {
 	desc := ""
 	ticker := false
 	for _, t := range m.threads {
@@ -193,44 +197,32 @@ func (m *machine) deadlock(what string) {
 			if t.onTicker {
 				ticker = true
 			}
-		} else {
-			desc += fmt.Sprintf(" [%s done=%v exited=%v started=%v]", t.name, t.done, t.exited, t.started)
 		}
 	}
 	if ticker {
-		// not a deadlock of the program: the bound on timer deliveries is used up
-		panic(pathEnd{"ticks-exhausted", "a thread waits for a timer beyond the delivery bound" + desc})
+		return pathEnd{"ticks-exhausted", "a thread waits for a timer beyond the delivery bound" + desc}
 	}
-	if m.notes["allow_main_block"] == nil && !m.replaying() {
+	if m.notes["allow_main_block"] != nil {
+		return pathEnd{"blocked", "main blocked: " + what}
+	}
+	if !m.replaying() {
 		m.res.mu.Lock()
 		m.res.Obligations++
 		m.res.mu.Unlock()
-		if os.Getenv("VERIF_DUMP_PATH") != "" {
-			for i, d := range m.trace {
-				w := ""
-				if i < len(m.traceWhere) {
-					w = m.traceWhere[i]
-				}
-				fmt.Fprintf(os.Stderr, "  DL decision %d: %s choice=%d n=%d %s\n", i, d.Kind, d.Choice, d.N, w)
-			}
-			fmt.Fprintf(os.Stderr, "  DL end %s\n", desc)
-		}
 		m.violated("deadlock", "true", "all threads blocked ("+what+")"+desc)
 	}
-	if m.cur.id == 0 {
-		if m.notes["allow_main_block"] != nil {
-			panic(pathEnd{"blocked", "main blocked: " + what})
-		}
-		panic(pathEnd{"deadlock", "all threads blocked (" + what + ")" + desc})
-	}
-	panic(pathEnd{"deadlock", "all threads blocked (" + what + ")" + desc})
+	return pathEnd{"deadlock", "all threads blocked (" + what + ")" + desc}
+}
+
+func (m *machine) deadlock(what string) {
+	panic(m.deadlockOutcome(what))
 }
 
 func (m *machine) threadExit(t *thread) {
 	cands := m.enabled()
 	if len(cands) == 0 {
 		// everybody else is blocked: the main thread can never finish
-		m.endPath(pathEnd{"deadlock", "all remaining threads blocked after exit of " + t.name})
+		m.endPath(m.deadlockOutcome("after exit of " + t.name))
 		return
 	}
 	ch := 0
